@@ -478,7 +478,7 @@ impl Prop for C16 {
         }
     }
     fn nontrivial_rule(&self) -> &'static str {
-        "scenario = policy none/fixed/exponential/jittered (seeded jitter hook)/custom table, max_attempts 0/1/2/5/unlimited, retry_on_reconnect on/off, predicate on/off, 1-5 sequential requests on one service each with an outcome script over {ok, reconnectable, other} of length <= 12 (mixed sequences included), some requests abandoned mid-backoff, observer tasks reading the published state at seeded instants. Non-trivial: some request was retried. Distinct = distinct event-log digest."
+        "scenario = policy none/fixed/exponential/jittered (seeded jitter hook)/custom table, max_attempts 0/1/2/5/unlimited, retry_on_reconnect on/off, predicate on/off, 1-5 sequential requests on one service each with an outcome script over {ok, reconnectable, other, other whose source() is a connection failure} of length <= 12 (mixed sequences included), some requests abandoned mid-backoff, observer tasks reading the published state at seeded instants. Non-trivial: some request was retried. Distinct = distinct event-log digest."
     }
     fn real_components(&self) -> Vec<&'static str> {
         vec!["tower-resilience-reconnect (ReconnectService/Future, ReconnectLayer, ReconnectConfig, ReconnectPolicy, ReconnectState)", "tower-resilience-retry backoff types behind the policies", "tokio::time::sleep on the paused clock"]
